@@ -278,7 +278,18 @@ class Evaluator:
                     return Opaque(n)
                 return {'str': str, 'bool': bool, 'int': int}[n](*args)
             if n == 'enumerate':
-                return list(enumerate(self.iterate(args[0])))
+                return list(enumerate(self.iterate(args[0]), *args[1:]))
+            if n in ('any', 'all'):
+                vals = [self.truth(v) for v in self.iterate(args[0])]
+                return any(vals) if n == 'any' else all(vals)
+            if n == 'reversed':
+                return list(reversed(self.iterate(args[0])))
+            if n == 'range':
+                if any(isinstance(a, Opaque) for a in args):
+                    raise AnalysisError('partial evaluator: range over a non-constant value')
+                return list(range(*args))
+            if n in ('min', 'max', 'sum') and args and not any(isinstance(a, Opaque) for a in args):
+                return {'min': min, 'max': max, 'sum': sum}[n](*args)
             if n == 'zip':
                 return list(zip(*[self.iterate(a) for a in args]))
             if n == 'isinstance':
